@@ -48,12 +48,42 @@ import (
 //go:embed baseline_funcs.txt
 var baselineFuncsTxt string
 
+var baselineSig = map[string]string{}
+
+func sigString(f *types.Func) string {
+	sig := f.Type().(*types.Signature)
+	return types.TypeString(types.NewSignatureType(nil, nil, nil, sig.Params(), sig.Results(), sig.Variadic()), nil)
+}
+
+// sameParams: the parameter lists of two signature strings ("func(a T) R") agree (results may differ: a result that was
+// never used may have been dropped).
+func sameParams(a, b string) bool {
+	cut := func(s string) string {
+		depth := 0
+		for i, r := range s {
+			switch r {
+			case '(':
+				depth++
+			case ')':
+				depth--
+				if depth == 0 {
+					return s[:i+1]
+				}
+			}
+		}
+		return s
+	}
+	return cut(a) == cut(b)
+}
+
 var baselineFuncs = func() map[string]bool {
 	m := map[string]bool{}
 	for _, l := range strings.Split(baselineFuncsTxt, "\n") {
 		l = strings.TrimSpace(l)
 		if l != "" && !strings.HasPrefix(l, "#") {
-			m[l] = true
+			name, sig, _ := strings.Cut(l, "\t")
+			m[name] = true
+			baselineSig[name] = sig
 		}
 	}
 	for _, d := range deanchored {
@@ -225,9 +255,35 @@ func flattenHelpers(pkgs []*packages.Package) (map[string][]byte, []string) {
 			}
 		}
 		for g, miss := range missingBy {
-			if len(miss) == 1 && len(freshBy[g]) == 1 {
+			// same signature required: a function with other parameters / results is a replacement, not a rename
+			// (the rules index parameters by position)
+			if len(miss) == 1 && len(freshBy[g]) == 1 && (baselineSig[miss[0]] == "" || sameParams(baselineSig[miss[0]], sigString(freshBy[g][0]))) {
 				renamedAnchors[miss[0]] = freshBy[g][0].FullName()
 				baselineFuncs[freshBy[g][0].FullName()] = true
+				continue
+			}
+			// several at once: pair those whose signature is unique on both sides
+			for _, m := range miss {
+				want := baselineSig[m]
+				if want == "" {
+					continue
+				}
+				nm := 0
+				for _, m2 := range miss {
+					if baselineSig[m2] == want {
+						nm++
+					}
+				}
+				var cands []*types.Func
+				for _, f := range freshBy[g] {
+					if sigString(f) == want {
+						cands = append(cands, f)
+					}
+				}
+				if nm == 1 && len(cands) == 1 {
+					renamedAnchors[m] = cands[0].FullName()
+					baselineFuncs[cands[0].FullName()] = true
+				}
 			}
 		}
 	}
@@ -2497,7 +2553,8 @@ func writeBaseline(pkgs []*packages.Package, path string) error {
 			for _, d := range f.Decls {
 				if fd, ok := d.(*ast.FuncDecl); ok {
 					if obj, _ := p.TypesInfo.Defs[fd.Name].(*types.Func); obj != nil {
-						names = append(names, obj.FullName())
+						// name <TAB> signature (receiver excluded), used to tell a rename from a replacement
+						names = append(names, obj.FullName()+"\t"+sigString(obj))
 					}
 				}
 			}
